@@ -349,10 +349,10 @@ Proof.
   apply andb_true_iff in H; destruct H as [H H4].
   apply andb_true_iff in H; destruct H as [H H3].
   apply andb_true_iff in H; destruct H as [H1 H2].
-  repeat split.
-  - intros Hs. rewrite Hs in H1. simpl in H1. exact H1.
-  - intros Hs d c acts. rewrite Hs in H1. simpl in H1. rewrite H1. apply direct_stdout_guarded_l.
-  - intros Hs. rewrite Hs in H2. simpl in H2. unfold str_in in H2.
+  split; [|split; [|split]].
+  - intros Hs. rewrite Hs in H1. simpl in H1. split; [exact H1|].
+    intros d c acts. rewrite H1. apply direct_stdout_guarded_l.
+  - intros Hs. rewrite Hs in H2. unfold implb, str_in in H2.
     apply existsb_exists in H2. destruct H2 as [x [Hx Heq]]. apply String.eqb_eq in Heq. subst x. exact Hx.
   - intros Hd Hio. rewrite Hio in H3.
     destruct (Nat.eqb (c_ndash r) 0) eqn:Hz; [apply Nat.eqb_eq in Hz; contradiction|].
@@ -362,8 +362,8 @@ Proof.
     destruct (c_stdout r); [right; right; left; reflexivity|].
     destruct (c_stdin r); [right; right; right; left; reflexivity|].
     simpl in H3. right; right; right; right. apply Nat.eqb_eq in H3. exact H3.
-  - intros Hs. rewrite Hs in H4. simpl in H4. exact H4.
-  - intros _ q. apply print_no_lines_l.
+  - intros Hs. rewrite Hs in H4. simpl in H4. split; [exact H4|].
+    intros q. apply print_no_lines_l.
 Qed.
 
 Lemma json_rows_l : forall r, In r json_table ->
